@@ -228,6 +228,21 @@ check("C13",
       "Lean 4 proof over all interleavings of a worker-step model + scheduler-enforced differential correspondence with real threads/processes",
       "DESIGN.md §4 C13")
 
+check("C18",
+      "Theorems (Lean, any number of workers/members, every interleaving of the workers' event lists): the events about a "
+      "member are exactly its one start, its updates, its one end carrying its size, in that order "
+      "(member_events_well_ordered, one_start_one_end); preparation first, post-processing last; update events sum to the "
+      "bytes of delivered members (updates_sum) and the decode loop's accounting adds up whatever iterations report "
+      "(updates_sum_decoded); FIFO invariant of the queue under every producer/reporter interleaving and close() "
+      "delivering the whole history (queue_invariant, close_delivers_all); counter-example theorem for the pinned "
+      "join(1) (repaired). Tied to py7zr by recording the callbacks of real extractions (archives of C09/C13, "
+      "extractall/extract(T), path/stream, factory/directory, scheduler-gated worker interleavings, eight handler "
+      "behaviours incl. reporter held back until close) and replaying them through the model as a schedule; the "
+      "property's clauses are also checked directly on every recording, incl. none-after-close for 1.3 s. Partial: the "
+      "1 s periodic update depends on wall-clock time (exercised with a slow sink, not enumerated).",
+      "Lean 4 proof over all interleavings of an event-queue model + differential correspondence of recorded callbacks + direct exploration",
+      "DESIGN.md §4 C18")
+
 ALL = ["C%02d" % i for i in range(1, 21)]
 REASON_PENDING = "not yet claimed in this revision: model/theorems/correspondence for it are still being built (see DESIGN.md §8.3 staging)"
 
